@@ -442,6 +442,14 @@ def covariance_native(vc):
     Pa = K(xa, xa, theta)
     vc.ensures("pairwise_kernel_psd", bool(np.linalg.eigvalsh(0.5 * (Pa + Pa.T)).min() >= -1e-9 * max(1.0, np.trace(Pa))))
     Kv, grads = K.covariance_and_gradients(theta)
+    # the matrices depend on the VALUES of the hyper-parameters only: one buffer used, updated in place, used again
+    buf = theta + 0.07 * rng.normal(size=p)
+    K.build_covariance(buf), K.covariance_and_gradients(buf), K(q, x, buf)
+    buf[:] = theta
+    Kv_b, grads_b = K.covariance_and_gradients(buf)
+    vc.ensures("hyperparameter_buffer_updated_in_place", bool(np.array_equal(K.build_covariance(buf), B)) and bool(np.array_equal(Kv_b, Kv))
+               and len(grads_b) == len(grads) and all(np.array_equal(a_, b_) for a_, b_ in zip(grads_b, grads))
+               and bool(np.array_equal(K(q, x, buf), K(q, x, theta.copy()))))
     ok = len(grads) == p and np.allclose(Kv, B)
     worst = 0.0
     for t in range(p):
